@@ -120,6 +120,7 @@ pub fn run_case(args: &[&str]) -> Option<String> {
     let scripts: VecDeque<(Vec<HOp>, bool)> = kv(args, "h")?.split(';').map(parse_script).collect::<Option<_>>()?;
     let sh = Shared::new(&[], end, parse_rd(kv(args, "rd")?), parse_wr(kv(args, "wr")?), parse_fl(kv(args, "fl")?));
     sh.lock().unwrap().auto_wake = true;
+    sh.lock().unwrap().abort_kind = kv(args, "ek") == Some("a");
     let writers: Writers = Arc::new(Mutex::new(vec![]));
     let scripts = Arc::new(Mutex::new(scripts));
 
